@@ -23,9 +23,18 @@ Init == h \in DOMAIN H /\ l = 1 /\ pend = {} /\ results = Empty /\ st = Empty /\
 Call == /\ l <= Len(Evs) /\ Ev.ev = "call"
         /\ pend' = pend \cup {[op |-> Ev.op, kind |-> Ev.kind, id |-> Ev.id, d |-> Ev.d, t |-> Ev.t]}
         /\ l' = l + 1 /\ UNCHANGED <<h, results, st, emitted>>
-Lin == \E o \in pend : LET r == ApplyReq(o, st) IN
+Lin == \E o \in pend : LET r == ApplyReq(o, st, H[h].impl) IN
          /\ pend' = pend \ {o} /\ results' = With(results, o.op, r.res) /\ st' = r.st
          /\ UNCHANGED <<h, l, emitted>>
+\* SioRequestIgnored (named deviation): requests to the single-loop crew's timers machine have no
+\* reply; the machine may not take a request at all (its start node's patterns are matched under
+\* the bindings left by an earlier failed request).  Such a request is not accepted and has no
+\* effect; the driver sees it as "rejected" (make) / "notfound" (cancel).
+Ignored == /\ H[h].impl = "sio"
+           /\ \E o \in pend :
+                /\ pend' = pend \ {o}
+                /\ results' = With(results, o.op, IF o.kind = "add" THEN "rejected" ELSE "notfound")
+                /\ UNCHANGED <<h, l, st, emitted>>
 Ret == /\ l <= Len(Evs) /\ Ev.ev = "ret" /\ Ev.op \in DOMAIN results /\ results[Ev.op] = Ev.res
        /\ l' = l + 1 /\ UNCHANGED <<h, pend, results, st, emitted>>
 \* the timer stops being pending (its id becomes free); only useful if its firing is observed later
@@ -49,7 +58,7 @@ Snap == /\ l <= Len(Evs) /\ Ev.ev = "snap" /\ pend = {}
         /\ \A k \in DOMAIN st : st[k].status = "fired" => k \in emitted
         /\ l' = l + 1 /\ UNCHANGED <<h, pend, results, st, emitted>>
 
-Next == Call \/ Lin \/ Ret \/ FireLin \/ Fire \/ Hook \/ Snap
+Next == Call \/ Lin \/ Ignored \/ Ret \/ FireLin \/ Fire \/ Hook \/ Snap
 Spec == Init /\ [][Next]_vars
 
 ASSUME TLCSet(1, {}) /\ TLCSet(2, [i \in DOMAIN H |-> 0])
@@ -58,9 +67,17 @@ Mark == /\ (l > TLCGet(2)[h]) => TLCSet(2, [TLCGet(2) EXCEPT ![h] = l])
 Post ==
   LET rej == SetToSeq(DOMAIN H \ TLCGet(1))
       N(i, e) == Cardinality({j \in DOMAIN H[i].events : H[i].events[j].ev = e})
+      \* A data race reported by the race detector is recorded as a "race" event, which no action
+      \* accepts ("timer activity never corrupts crew state").  Signature of the known finding:
+      \* every race event of the history is between a sio timer goroutine and the crew loop.
+      Races(i) == {e \in DOMAIN H[i].events : H[i].events[e].ev = "race"}
+      SigsOf(i) == IF Races(i) # {} /\ (\A e \in Races(i) : H[i].events[e].sig = "sio-timer-goroutine-vs-crew-loop")
+                                    /\ (\A e \in DOMAIN H[i].events : H[i].events[e].ev = "race")
+                   THEN {"SioTimerGoroutineRacesCrewLoop"} ELSE {}
   IN /\ ndJsonSerialize("judge_bad.ndjson",
-          [k \in DOMAIN rej |-> [id |-> H[rej[k]].id, line |-> rej[k], c17 |-> {"not-a-behaviour-of-TimersProp"},
-                                 stuckAt |-> TLCGet(2)[rej[k]], sigs |-> {}]])
+          [k \in DOMAIN rej |-> [id |-> H[rej[k]].id, line |-> rej[k],
+                                 c17 |-> IF Races(rej[k]) # {} THEN {"data-race"} ELSE {"not-a-behaviour-of-TimersProp"},
+                                 stuckAt |-> TLCGet(2)[rej[k]], sigs |-> SigsOf(rej[k])]])
      /\ ndJsonSerialize("judge_stats.ndjson",
           <<[lines |-> Len(H),
              stats |-> [histories |-> Len(H),
